@@ -261,6 +261,9 @@ func (i *Interp) jsonUnmarshal(fr *frame, data value, target iface, useNumber bo
 	if dec.More() {
 		return i.mkError("invalid character after top-level value")
 	}
+	// keep the source text of every object and array: an UnmarshalJSON method
+	// (json.RawMessage in particular) receives it verbatim, as from encoding/json
+	g = i.decodeKeepingRaw(b)
 	cell := target.v.(*value)
 	if err := i.jsonDecodeInto(fr, pt.Elem(), cell, g, useNumber); err != "" {
 		return i.mkError(err)
@@ -280,6 +283,73 @@ func rawOf(g interface{}) []byte {
 	return b
 }
 
+type rawEntry struct {
+	obj interface{} // keeps the object alive so that its address is not reused
+	raw []byte
+}
+
+// decodeKeepingRaw decodes valid JSON like json.Unmarshal into interface{}
+// (with json.Number) and records the source text of every object and array.
+func (i *Interp) decodeKeepingRaw(raw []byte) interface{} {
+	raw = bytes.TrimSpace(raw)
+	if len(raw) == 0 {
+		return nil
+	}
+	if i.jsonRaws == nil {
+		i.jsonRaws = map[uintptr]rawEntry{}
+	}
+	switch raw[0] {
+	case '{':
+		var m map[string]json.RawMessage
+		if json.Unmarshal(raw, &m) != nil {
+			break
+		}
+		out := make(map[string]interface{}, len(m))
+		for k, v := range m {
+			out[k] = i.decodeKeepingRaw(v)
+		}
+		i.jsonRaws[reflect.ValueOf(out).Pointer()] = rawEntry{out, raw}
+		return out
+	case '[':
+		var a []json.RawMessage
+		if json.Unmarshal(raw, &a) != nil {
+			break
+		}
+		out := make([]interface{}, len(a))
+		for k, v := range a {
+			out[k] = i.decodeKeepingRaw(v)
+		}
+		if len(out) > 0 {
+			i.jsonRaws[reflect.ValueOf(out).Pointer()] = rawEntry{out, raw}
+		}
+		return out
+	}
+	dec := json.NewDecoder(bytes.NewReader(raw))
+	dec.UseNumber()
+	var g interface{}
+	dec.Decode(&g)
+	return g
+}
+
+// rawOfKept is rawOf with the recorded source text where there is one.
+func (i *Interp) rawOfKept(g interface{}) []byte {
+	switch t := g.(type) {
+	case map[string]interface{}:
+		if e, ok := i.jsonRaws[reflect.ValueOf(t).Pointer()]; ok {
+			return e.raw
+		}
+	case []interface{}:
+		if len(t) > 0 {
+			if e, ok := i.jsonRaws[reflect.ValueOf(t).Pointer()]; ok {
+				if s, isSlice := e.obj.([]interface{}); isSlice && len(s) == len(t) {
+					return e.raw
+				}
+			}
+		}
+	}
+	return rawOf(g)
+}
+
 // jsonDecodeInto stores the decoding of g, for static type t, into *cell.
 // Returns an error text or "".
 func (i *Interp) jsonDecodeInto(fr *frame, t types.Type, cell *value, g interface{}, useNumber bool) string {
@@ -293,7 +363,7 @@ func (i *Interp) jsonDecodeInto(fr *frame, t types.Type, cell *value, g interfac
 						return "" // null is a no-op for Unmarshalers (except RawMessage)
 					}
 				}
-				res := i.callFn(fr, m, cell, i.jsonOutBytes(rawOf(g)))
+				res := i.callFn(fr, m, cell, i.jsonOutBytes(i.rawOfKept(g)))
 				if e := res.(iface); e.t != nil {
 					return i.panicText(e)
 				}
